@@ -375,7 +375,7 @@ func ruleTokenAgreement(w *World, r *RuleResult) {
 				okE = true
 			}
 		}
-		if len(w.callsTo(pf, "strings.ToLower")) > 0 {
+		if len(w.callsTo(pf, "strings.ToLower")) > 0 || w.callsASCIILower(pf) {
 			lower = true
 		}
 	}
@@ -627,4 +627,44 @@ func ruleOneFormatter(w *World, r *RuleResult) {
 			r.bad(key, w.pos(f.Pos()), strings.Join(bad, "; "))
 		}
 	}
+}
+
+// callsASCIILower: pf calls a function of the package that maps 'A'..'Z' to lower case byte-wise
+// (recognised by its comparisons with 'A' and 'Z' and the addition of 'a'-'A').
+func (w *World) callsASCIILower(pf *ssa.Function) bool {
+	for _, c := range callsIn(pf) {
+		g := callee(c)
+		if g == nil || !w.inPkg(g) || w.asciiLowerFn(g) == false {
+			continue
+		}
+		return true
+	}
+	return false
+}
+
+func (w *World) asciiLowerFn(g *ssa.Function) bool {
+	cmpA, cmpZ, add := false, false, false
+	for _, b := range g.Blocks {
+		for _, in := range b.Instrs {
+			bo, ok := in.(*ssa.BinOp)
+			if !ok {
+				continue
+			}
+			for _, o := range []ssa.Value{bo.X, bo.Y} {
+				k, isK := o.(*ssa.Const)
+				if !isK || k.Value == nil || k.Value.Kind() != constant.Int {
+					continue
+				}
+				switch {
+				case ci(k) == 'A' && (bo.Op == token.LEQ || bo.Op == token.GEQ || bo.Op == token.LSS || bo.Op == token.GTR):
+					cmpA = true
+				case ci(k) == 'Z' && (bo.Op == token.LEQ || bo.Op == token.GEQ || bo.Op == token.LSS || bo.Op == token.GTR):
+					cmpZ = true
+				case ci(k) == 32 && (bo.Op == token.ADD || bo.Op == token.OR):
+					add = true
+				}
+			}
+		}
+	}
+	return cmpA && cmpZ && add
 }
